@@ -171,6 +171,30 @@ def run(ctx):
             other = SH.ShareSet.generate_shares(MN.bytes_to_mnemonic(rb(nb), nb * 8), k, n, pw, exp)
             got = outcome(SH.ShareSet.recover_mnemonic, sl[:k - 1] + [other[k - 1]], pw)
             cases.append({"id": "mx%d" % si, "kind": "recover", "expect": "mixed-splits", "res": got[0], "got": [], "mnemonic": [], "cls": "mixed"})
+            # the same with a foreign split that carries the SAME identifier, exponent, k and n (only the digest can tell):
+            # exactly k shares with one foreign, and k genuine shares plus one foreign at a lower / higher member index, in both list orders
+            first = [True]
+
+            def same_id(nbits):
+                if first[0]:
+                    first[0] = False
+                    return idv
+                return rng.getrandbits(nbits)
+            SH.randbits = same_id
+            try:
+                twin = outcome(SH.ShareSet.generate_shares, MN.bytes_to_mnemonic(rb(nb), nb * 8), k, n, pw, exp)
+            finally:
+                SH.randbits = orig
+            if twin[0] == "ok":
+                tw = twin[1]
+                mixes = [("k-with-one-foreign", sl[:k - 1] + [tw[k - 1]])]
+                if n > k:
+                    mixes += [("k-genuine-plus-foreign-above", sl[:k] + [tw[n - 1]]), ("foreign-above-listed-first", [tw[n - 1]] + sl[:k]),
+                              ("k-genuine-plus-foreign-below", sl[n - k:] + [tw[0]]), ("foreign-in-the-middle", sl[:1] + [tw[n - 1]] + sl[1:k])]
+                for mj, (mname, subset) in enumerate(mixes):
+                    got = outcome(SH.ShareSet.recover_mnemonic, subset, pw)
+                    cases.append({"id": "mxt%d.%d" % (si, mj), "kind": "recover", "expect": "mixed-splits", "res": got[0], "got": [], "mnemonic": [], "cls": "mixed-same-id:" + mname})
+                    ctx.nontriv(("recover-mixed-same-id", mname, got[0]))
         # corruptions of 1..3 words
         if si < (4 if q else 30):
             base = sl[0].split()
